@@ -273,5 +273,15 @@ theorem invx_newOps {s : St} (hinv : InvX s.heap) : âˆ€ (op : OpX), (âˆ€ b, op â
     simp only [HeapX.stepX]; (repeat' split) <;> exact TrX.refl hinv
   | .stackEdit t j b, _ => by
     simp only [HeapX.stepX]; (repeat' split) <;> exact TrX.refl hinv
+  | .newHeaderFrom t, _ => by
+    simp only [HeapX.stepX]
+    (repeat' split) <;> first
+      | exact TrX.refl hinv
+      | exact invx_base_core hinv (.newHeader _) (Or.inl rfl)
+  | .newBlockFrom t txs, _ => by
+    simp only [HeapX.stepX]
+    (repeat' split) <;> first
+      | exact TrX.refl hinv
+      | exact invx_base_core hinv (.newBlock _ _) (Or.inr âŸ¨_, _, rflâŸ©)
 
 end BtcVerif.Model.Heap
